@@ -6,3 +6,4 @@ import WsVerif.Model.Stats
 import WsVerif.Props.C01
 import WsVerif.Model.Peak
 import WsVerif.Props.C02
+import WsVerif.Props.C10
